@@ -343,6 +343,10 @@ C12v(line, pre) ==
   \cup (IF line.ret = "nil" /\ ~line.panic /\ ~line.hang /\ ~line.exit /\ \E i \in 1..Len(pre.gorder) : ~\E j \in 1..Len(line.calls) :
             line.calls[j].op = "list_pods" /\ line.calls[j].g = pre.gorder[i]
         THEN {<<"C12", "later-group-not-processed", "", "">>} ELSE {})
+C12x(line, pre, exp) ==   \* a failure that the specification classifies as non-fatal stopped the scan before the later groups
+  IF line.ret # "nil" /\ ~line.panic /\ ~line.hang /\ ~line.exit /\ exp.valid /\ exp.ret = "nil"
+     /\ \E i \in 1..Len(pre.gorder) : ~\E j \in 1..Len(line.calls) : line.calls[j].op = "list_pods" /\ line.calls[j].g = pre.gorder[i]
+  THEN {<<"C12", "non-fatal-failure-stopped-later-groups", "", "">>} ELSE {}
 C12f(line, pre) ==
   (IF Cardinality(Groups(pre)) > 1 THEN {"C12:multi-group"} ELSE {})
   \cup (IF Cardinality(Groups(pre)) > 1 /\ \E i \in 1..Len(line.calls) : ~line.calls[i].ok /\ line.calls[i].g # pre.gorder[Len(pre.gorder)] /\ line.calls[i].g # ""
@@ -445,7 +449,7 @@ C20f(line, pre, exp) ==
 Violations(line, pre, post, exp) ==
   C01v(line, pre) \cup C02v(line, pre) \cup C03v(line, pre, post) \cup C04v(line, pre, post, exp) \cup C05v(line, pre)
   \cup C06v(line, pre) \cup C07v(line, pre, post, exp) \cup C08v(line, pre) \cup C09v(line, pre) \cup C10v(line, pre, exp)
-  \cup C11v(line, pre) \cup C12v(line, pre) \cup C13v(line, pre) \cup C15v(line, pre, post) \cup C19v(line, pre, exp) \cup C20v(line, pre, exp)
+  \cup C11v(line, pre) \cup C12v(line, pre) \cup C12x(line, pre, exp) \cup C13v(line, pre) \cup C15v(line, pre, post) \cup C19v(line, pre, exp) \cup C20v(line, pre, exp)
 
 Facts(line, pre, post, exp) ==
   C01f(line, pre) \cup C02f(line, pre) \cup C03f(line, pre) \cup C04f(line, pre) \cup C05f(line, pre) \cup C06f(line, pre)
